@@ -20,10 +20,19 @@ STOP = "STOP_PROCESSING"
 TEMPLATES = ("det_{id}.wav", "ev_{id}_{start:.3f}_{end:.3f}.wav", "d{id:03d}-{duration:.2f}.raw", "x_{start}_{end}_{id}.wav")
 
 
-def random_pipeline_case(rng, max_windows=40, want_saver=None, want_stop=False, line_mode=False):
+def random_pipeline_case(rng, max_windows=40, want_saver=None, want_stop=False, line_mode=False, many_detections=False):
     case = AC.random_split_case(rng, max_windows=max_windows, small_rate=True, allow_partial=True)
     # the tokenizer worker splits an AudioReader: durations are counted in the reader's block duration
     case["w"] = case["block"] / case["rate"]
+    if many_detections:
+        # a long burst of detections (one per window or two): inboxes fill up when an observer is starved
+        case["max_len"] = rng.choice((1, 1, 2))
+        case["min_len"] = 1
+        case["max_sil"] = 0
+        n = rng.randint(25, 70)
+        case["v"] = [1 if rng.random() < 0.9 else 0 for _ in range(n)]
+        case["partial"] = 0
+        case["random_pcm"] = False
     kinds = []
     for _ in range(rng.choice((0, 1, 1, 2, 3, 4))):
         kinds.append(rng.choice(("rec", "rec", "rec", "print", "regionsaver", "joiner")))
@@ -41,7 +50,7 @@ def random_pipeline_case(rng, max_windows=40, want_saver=None, want_stop=False, 
         case["saver"] = None
     case["silence"] = rng.choice((0, 0.5 / case["rate"], 1 / case["rate"], 3 * case["block"] / case["rate"], 0.1))
     case["template"] = rng.choice(TEMPLATES)
-    case["strategy"] = rng.choice(S.NAMES)
+    case["strategy"] = rng.choice(S.NAMES) if not many_detections else rng.choice(("starve", "starve", "pct", "sticky"))
     case["sched_seed"] = rng.getrandbits(32)
     case["timeout_budget"] = rng.choice((0, 0, 3, 10, 50))
     case["line_p"] = rng.choice((0.02, 0.1, 0.3)) if line_mode else 0.0
@@ -52,11 +61,30 @@ def random_pipeline_case(rng, max_windows=40, want_saver=None, want_stop=False, 
     return case
 
 
+class ShortReadSource(auditok.io.BufferAudioSource):
+    """A source that, like a pipe or a driver, may return fewer samples than asked for before the end of the stream."""
+
+    def vf_init(self, seed):
+        self.vf_rng = random.Random(seed)
+        return self
+
+    def read(self, size):
+        if size is not None and size > 1 and self.vf_rng.random() < 0.35:
+            size = self.vf_rng.randint(1, size - 1)
+        return super().read(size)
+
+
 class Result:
     pass
 
 
 def split_reference(data, case):
+    if case.get("short_reads"):
+        # the blocks are whatever the source hands out: the reference is split() over an identical source
+        src = ShortReadSource(data, case["rate"], case["width"], case["channels"]).vf_init(case["short_reads"])
+        rd = auditok.AudioReader(src, block_dur=case["w"])
+        kw = {k: v for k, v in AC.split_kwargs(case).items() if k != "analysis_window"}
+        return [(i + 1, r.start, r.end, bytes(r)) for i, r in enumerate(auditok.split(rd, **kw))]
     kw = AC.split_kwargs(case)
     return [(i + 1, r.start, r.end, bytes(r)) for i, r in enumerate(auditok.split(data, **kw, **AC.audio_kwargs(case)))]
 
@@ -72,7 +100,11 @@ def run_pipeline(case, data, tmpdir, script_override=None, decisions=None):
     holder = {}
 
     def script(sched):
-        reader = H.SchedReader(data, block_dur=case["w"], **AC.audio_kwargs(case)).vf_init(sched)
+        if case.get("short_reads"):
+            src0 = ShortReadSource(data, case["rate"], case["width"], case["channels"]).vf_init(case["short_reads"])
+            reader = H.SchedReader(src0, block_dur=case["w"]).vf_init(sched)
+        else:
+            reader = H.SchedReader(data, block_dur=case["w"], **AC.audio_kwargs(case)).vf_init(sched)
         holder["reader"] = reader
         src = reader
         saver = None
